@@ -31,6 +31,8 @@ mod big;
 mod seq;
 #[path = "c07/lookalike.rs"]
 mod lookalike;
+#[path = "c07/gaps.rs"]
+mod gaps;
 #[path = "c07/escapes.rs"]
 mod escapes;
 use common::*;
@@ -763,6 +765,26 @@ fn main() {
             }
         }
         ctx.run(&batch);
+    }
+    // ---- every kind of ignored token (and runs of them) at every class of gap between tokens
+    if !only_new || args.extra.get("gaps").is_some() {
+        let t_gaps = std::time::Instant::now();
+        let cases = gaps::gap_cases(&mut rng, if search { 12 } else { args.budget(2, 40) }, args.budget(4, 8));
+        let n_gap_cases = cases.len();
+        let mut batch: Vec<Case> = vec![];
+        for (i, gc) in cases.into_iter().enumerate() {
+            if i % 397 == 0 {
+                ctx.rep.sample(json!({"kind": gc.kind, "trivia": gc.trivia, "gap": gc.class, "text": gc.text.chars().take(300).collect::<String>()}));
+            }
+            let features = vec![format!("trivia-kind:{}", gc.trivia), format!("gap:{}", gc.class)];
+            batch.push(Case { kind: gc.kind, text: gc.text, expect: Some(gc.expect), label: format!("valid:trivia-{}", gc.trivia), features });
+            if batch.len() >= 600 {
+                ctx.run(&batch);
+                batch.clear();
+            }
+        }
+        ctx.run(&batch);
+        ctx.rep.extra.insert("gap_stream".into(), json!({"cases": n_gap_cases, "ms": t_gaps.elapsed().as_millis() as u64}));
     }
     let mut run = Runner::new(&args.scratch);
     let t_large = std::time::Instant::now();
